@@ -48,6 +48,35 @@ impl ahash::random_state::RandomSource for RunHashSource {
 
 thread_local! {
     static LAST_PANIC: RefCell<Option<String>> = const { RefCell::new(None) };
+    /// run index the current driver thread is working on (for the hang watchdog's report)
+    static CURRENT_RUN: std::cell::Cell<u64> = const { std::cell::Cell::new(u64::MAX) };
+}
+
+/// executions in flight: OS thread id of the simulation thread -> (run index, start)
+pub static RUNNING: Mutex<std::collections::BTreeMap<i64, (u64, std::time::Instant)>> = Mutex::new(std::collections::BTreeMap::new());
+
+pub fn set_current_run(idx: u64) {
+    CURRENT_RUN.with(|c| c.set(idx));
+}
+
+fn gettid() -> i64 {
+    extern "C" {
+        fn syscall(num: i64, ...) -> i64;
+    }
+    unsafe { syscall(186) } // SYS_gettid on x86_64
+}
+
+/// CPU seconds (user + system) consumed so far by the thread `tid` of this process.  A run that
+/// hangs in code without scheduling points burns CPU; a run that is merely slow because the
+/// machine is oversubscribed does not, so the hang verdict is taken on CPU time, not wall time.
+pub fn thread_cpu_seconds(tid: i64) -> Option<f64> {
+    let s = std::fs::read_to_string(format!("/proc/self/task/{tid}/stat")).ok()?;
+    let rest = &s[s.rfind(')')? + 2..];
+    let f: Vec<&str> = rest.split_whitespace().collect();
+    // fields after the command: state(0) ... utime is field 14, stime field 15 of the full line
+    let utime: f64 = f.get(11)?.parse().ok()?;
+    let stime: f64 = f.get(12)?.parse().ok()?;
+    Some((utime + stime) / 100.0)
 }
 
 pub fn init_process() {
@@ -130,10 +159,17 @@ where
 {
     init_process();
     let plan = plan.clone();
+    let idx = CURRENT_RUN.with(|c| c.get());
     let handle = std::thread::Builder::new()
         .name("sim-run".into())
         .stack_size(4 << 20)
-        .spawn(move || execute_here(plan, body))
+        .spawn(move || {
+            let tid = gettid();
+            RUNNING.lock().unwrap().insert(tid, (idx, std::time::Instant::now()));
+            let r = execute_here(plan, body);
+            RUNNING.lock().unwrap().remove(&tid);
+            r
+        })
         .expect("spawn sim thread");
     handle.join().expect("simulation driver thread must not panic")
 }
